@@ -328,3 +328,200 @@ def all_complete(F: Facts, clause: str):
         if s['status'] != 'completed' or not s['sig'] or bad:
             v.append((clause, f'event {ev} not complete at quiescence: status={s["status"]} signalled={s["sig"]} non-terminal results={bad}' + (f' [{hang_text(F)}]' if F.hang else '')))
     return v
+
+
+# ---------------------------------------------------------------------------
+# C10
+
+
+EPS = 1e-9
+
+
+def _timeout_of(F, ev):
+    """event_timeout the harness gave the event (None = no timeout)"""
+    typ = F.etype.get(ev)
+    for r in F.tr:
+        if r['k'] == 'disp' and r.get('ev') == ev:
+            break
+    to = (F.sc.get('timeouts') or {}).get(str(typ))
+    return to
+
+
+def c10_facts(F: Facts):
+    if hasattr(F, '_c10'):
+        return F._c10
+    inv = {}  # me -> dict(enter idx/time, exit idx/time/how, deadline)
+    for (bus, ev, hi), ents in F.enters.items():
+        for n, e in enumerate(ents):
+            exs = F.exits.get((bus, ev, hi), [])
+            x = exs[n] if n < len(exs) else None
+            to = _timeout_of(F, ev)
+            te = F.tr[e]['t']
+            inv[(bus, ev, hi, n)] = {'enter': e, 'te': te, 'exit': x, 'tx': F.tr[x]['t'] if x is not None else None, 'how': F.tr[x]['how'] if x is not None else None, 'D': (te + to) if to is not None else None, 'to': to}
+    own, anc, ties, where = [], [], [], set()
+    touched = set()
+    for key, d in inv.items():
+        if d['how'] != 'cancelled':
+            continue
+        me = key[:3]
+        tx = d['tx']
+        is_own = d['D'] is not None and abs(d['D'] - tx) <= EPS
+        # deadlines of handlers that were awaiting (an ancestor of) this handler's event when it was cancelled
+        expl = []
+        for (obus, oev, ohi, on), od in inv.items():
+            if (obus, oev, ohi) == me:
+                continue
+            for b, e, t in F.awaits.get((obus, oev, ohi), []):
+                if b < d['exit'] and (e is None or e >= d['exit']) and F.is_desc(me[1], t) and od['D'] is not None and abs(od['D'] - tx) <= EPS:
+                    expl.append((obus, oev, ohi))
+        d['own'] = is_own
+        d['explained_by'] = expl
+        if is_own and expl:
+            ties.append(key)
+        if is_own:
+            own.append(key)
+            aw = [(b, e, t) for b, e, t in F.awaits.get(me, []) if b < d['exit'] and (e is None or e >= d['exit'])]
+            if aw:
+                t = aw[0][2]
+                gk = [x for x in F.descendants(t) if any(k[1] == x and v['enter'] < d['exit'] and (v['exit'] is None or v['exit'] >= d['exit'] - 0) and v['how'] == 'cancelled' and abs((v['tx'] or -1) - tx) <= EPS for k, v in inv.items())]
+                where.add('while-grandchild-runs' if gk else 'while-awaiting-child')
+                for x in [t] + F.descendants(t):
+                    touched.add(x)
+            else:
+                disp_before = any(r['k'] == 'disp' and r['by'] == list(me) and r['i'] < d['exit'] for r in F.tr)
+                where.add('after-dispatching' if disp_before else 'before-dispatching')
+        elif expl:
+            anc.append(key)
+    F._c10 = {'inv': inv, 'own_deadline_cancels': own, 'ancestor_cancels': anc, 'ties': ties, 'where': where, 'touched': touched}
+    return F._c10
+
+
+def c10(F: Facts):
+    v = []
+    f = c10_facts(F)
+    inv = f['inv']
+    end_t = F.tr[-1]['t'] if F.tr else 0.0
+    for key, d in inv.items():
+        me = key[:3]
+        D = d['D']
+        if D is not None:
+            # C10.a no activity of this handler strictly after its deadline
+            last = d['exit'] if d['exit'] is not None else len(F.tr)
+            for r in F.tr[d['enter'] : last]:
+                by = r.get('by')
+                mine = (r['k'] == 'mark' and (r['bus'], r['ev'], r['h']) == me) or (isinstance(by, list) and tuple(by) == me)
+                if mine and r['t'] > D + EPS:
+                    v.append(('C10.a', f'handler h{me[2]} of event {me[1]} on {me[0]} entered at t={d["te"]} with timeout {d["to"]} (deadline {D}) but was still executing at t={r["t"]} (record {r["k"]} idx {r["i"]})'))
+                    break
+            # C10.b it leaves at the deadline at the latest
+            if d['exit'] is None:
+                if end_t > D + EPS:
+                    v.append(('C10.b', f'handler h{me[2]} of event {me[1]} on {me[0]} (deadline {D}) never exited (run ended at t={end_t})'))
+            elif d['tx'] > D + EPS:
+                v.append(('C10.b', f'handler h{me[2]} of event {me[1]} on {me[0]} overran its deadline {D}: exited ({d["how"]}) at t={d["tx"]}'))
+        if d['how'] == 'cancelled' and not d.get('own') and not d.get('explained_by'):
+            v.append(('C10.b', f'handler h{me[2]} of event {me[1]} on {me[0]} was cancelled at t={d["tx"]}, which is neither its own deadline ({D}) nor the deadline of a handler awaiting it'))
+    fin = F.final
+    if not F.hang:
+        for key, d in inv.items():
+            me = key[:3]
+            if d['how'] != 'cancelled':
+                continue
+            s = fin.get(me[1])
+            if s is None:
+                continue
+            rows = [r for r in s['results'] if r['h'] == f'h{me[2]}' and r['bus'] == me[0]]
+            if len(rows) != 1:
+                v.append(('C10.c', f'event {me[1]}: {len(rows)} results for cancelled handler h{me[2]} on {me[0]}'))
+                continue
+            r = rows[0]
+            if r['st'] != 'error':
+                if not (key in f['ties']):
+                    v.append(('C10.c', f'handler h{me[2]} of event {me[1]} on {me[0]} was cancelled at t={d["tx"]} but its result is {r["st"]}'))
+            elif d.get('own') and not d.get('explained_by') and r['err'] != 'TimeoutError':
+                v.append(('C10.c', f'handler h{me[2]} of event {me[1]} on {me[0]} was cut off at its own deadline but its error is {r["err"]}, not TimeoutError'))
+        # C10.d / C10.f exactly-once for everything not interrupted; interrupted events may have un-run handlers with error results
+        touched = f['touched']
+        for (bus, ev), idxs in F.enq.items():
+            s = fin.get(ev)
+            for hi in sorted(F.expected(bus, ev)):
+                n = len(F.enters.get((bus, ev, hi), []))
+                if n > 1:
+                    v.append(('C10.d', f'event {ev} on {bus}: handler h{hi} ran {n} times'))
+                elif n == 0:
+                    rows = [r for r in (s['results'] if s else []) if r['h'] == f'h{hi}' and r['bus'] == bus]
+                    if ev in touched and rows and rows[0]['st'] == 'error':
+                        continue
+                    clause = 'C10.d' if ev in touched or any(k[1] == ev and dd['how'] == 'cancelled' for k, dd in inv.items()) else 'C10.f'
+                    v.append((clause, f'event {ev} accepted on {bus}: handler h{hi} never ran (interrupted-by-cancellation={ev in touched}, results={[(r["h"], r["st"]) for r in rows]})'))
+        v.extend(all_complete(F, 'C10.e'))
+    else:
+        blocked = F.hang.get('actors') or {}
+        if any(b.get('blocked') and b['blocked'][0] == 'idle' for b in blocked.values()):
+            v.append(('C10.g', f'wait_until_idle() did not return: {hang_text(F)}'))
+        else:
+            v.append(('C10.e', f'run did not reach quiescence: {hang_text(F)}'))
+    return v
+
+
+# ---------------------------------------------------------------------------
+# C11
+
+
+def c11(F: Facts):
+    v = []
+    fin = F.final
+    raised = {}  # me -> kind ('raise' | 'excobj')
+    for r in F.tr:
+        if r['k'] == 'exit' and r['how'] == 'raise':
+            raised[(r['bus'], r['ev'], r['h'])] = 'raise'
+    if not F.hang:
+        for (bus, ev), idxs in F.enq.items():
+            s = fin.get(ev)
+            if s is None:
+                continue
+            for hi in sorted(F.expected(bus, ev)):
+                me = (bus, ev, hi)
+                n = len(F.enters.get(me, []))
+                rows = [r for r in s['results'] if r['h'] == f'h{hi}' and r['bus'] == bus]
+                if n != 1:
+                    v.append(('C11.b', f'event {ev} on {bus}: handler h{hi} ran {n} times (raising handlers on this event: {[m for m in raised if m[1] == ev]})'))
+                    continue
+                if len(rows) != 1:
+                    v.append(('C11.b', f'event {ev} on {bus}: {len(rows)} results for handler h{hi}'))
+                    continue
+                r = rows[0]
+                spec = F.sc['handlers'][hi]
+                if me in raised:
+                    if r['st'] != 'error':
+                        v.append(('C11.a', f'handler h{hi} of event {ev} on {bus} raised but its result is {r["st"]}'))
+                    elif r['errkey'] != list(me):
+                        v.append(('C11.a', f'handler h{hi} of event {ev} on {bus} raised, but the recorded error ({r["err"]}) is not the object it raised'))
+                elif spec.get('ret') == 'excobj':
+                    if r['st'] != 'error' or r['errkey'] != list(me):
+                        v.append(('C11.a', f'handler h{hi} of event {ev} on {bus} returned an exception object; result is {r["st"]} err={r["err"]} (same object: {r["errkey"] == list(me)})'))
+                else:
+                    if r['st'] != 'completed':
+                        v.append(('C11.b', f'handler h{hi} of event {ev} on {bus} did not raise but its result is {r["st"]} ({r["err"]})'))
+        v.extend(all_complete(F, 'C11.c'))
+    else:
+        v.append(('C11.c', f'run did not reach quiescence: {hang_text(F)}'))
+    for r in F.tr:
+        if r['k'] == 'a-await-end' and r['exc']:
+            v.append(('C11.d', f'await on event {r["ev"]} raised {r["exc"]}'))
+        if r['k'] == 'a-acc':
+            rows = r['rows']
+            errs = [x for x in rows if x['err'] is not None]
+            if r['ria'] and errs:
+                first = errs[0]
+                if r['out'] != 'raise':
+                    v.append(('C11.e', f'{r["name"]}(raise_if_any=True) on event {r["ev"]} returned {r.get("val")} although handler {first["h"]} on {first["bus"]} has error {first["err"]}'))
+                elif first['errkey'] is not None and r.get('errkey') != first['errkey']:
+                    v.append(('C11.e', f'{r["name"]}(raise_if_any=True) on event {r["ev"]} raised {r["exc"]} (object of {r.get("errkey")}) instead of the first recorded error object (handler {first["h"]} on {first["bus"]})'))
+                elif first['errkey'] is None and r.get('exc') != first['err']:
+                    v.append(('C11.e', f'{r["name"]}(raise_if_any=True) on event {r["ev"]} raised {r["exc"]}, first recorded error is {first["err"]}'))
+            elif r['out'] == 'raise':
+                truthy = [x for x in rows if x['st'] == 'completed' and x['res'] != 'None' and not (isinstance(x['res'], list) and x['res'] and x['res'][0] in ('event', 'exc'))]
+                if not (r['exc'] == 'ValueError' and r['rin'] and not truthy and r.get('errkey') is None):
+                    v.append(('C11.e', f'{r["name"]}(raise_if_any={r["ria"]}, raise_if_none={r["rin"]}) on event {r["ev"]} raised {r["exc"]} (errors recorded: {[(x["h"], x["err"]) for x in errs]})'))
+    return v
